@@ -30,7 +30,7 @@ fn dec_edge(rng: &mut Rng) -> Decimal {
         3 => Decimal::from_attos(I192::from(1)),
         4 => Decimal::from_attos(I192::from(-1)),
         5 => Decimal::ONE,
-        6 => Decimal::from_attos(I192::from(2).pow(152)),
+        6 => Decimal::from_attos(I192::from_str("5708990770823839524233143877797980545530986496").unwrap()),
         _ => Decimal::from(rng.below(1000)),
     }
 }
@@ -56,12 +56,12 @@ fn leaf(rng: &mut Rng, w: &World) -> ManifestValue {
         3 => ManifestValue::U64 { value: *rng.pick(&[0u64, 1, u64::MAX]) },
         4 => ManifestValue::I64 { value: *rng.pick(&[0i64, -1, i64::MIN, i64::MAX]) },
         5 => ManifestValue::String { value: if rng.bool() { String::new() } else { "x".repeat(1 + rng.usize_below(300)) } },
-        6 | 7 => ManifestValue::Custom { value: ManifestCustomValue::Decimal(from_decimal(dec_edge(rng))) },
+        6 | 7 => ManifestValue::Custom { value: ManifestCustomValue::Decimal(from_decimal(&dec_edge(rng))) },
         8 | 9 => addr(rng),
         10 => ManifestValue::Custom { value: ManifestCustomValue::Expression(ManifestExpression::EntireWorktop) },
         11 => ManifestValue::Custom { value: ManifestCustomValue::Expression(ManifestExpression::EntireAuthZone) },
         12 => ManifestValue::Custom { value: ManifestCustomValue::NonFungibleLocalId(from_non_fungible_local_id(NonFungibleLocalId::integer(rng.below(5)))) },
-        13 => ManifestValue::Custom { value: ManifestCustomValue::PreciseDecimal(from_precise_decimal(if rng.bool() { PreciseDecimal::MAX } else { PreciseDecimal::MIN })) },
+        13 => ManifestValue::Custom { value: ManifestCustomValue::PreciseDecimal(from_precise_decimal(&(if rng.bool() { PreciseDecimal::MAX } else { PreciseDecimal::MIN }))) },
         14 => ManifestValue::Enum { discriminator: rng.below(4) as u8, fields: vec![] },
         _ => ManifestValue::Tuple { fields: vec![] },
     }
@@ -82,7 +82,7 @@ fn value(rng: &mut Rng, w: &World, depth: u32) -> ManifestValue {
             let d = dec_edge(rng);
             ManifestValue::Array {
                 element_value_kind: ManifestValueKind::Custom(ManifestCustomValueKind::Decimal),
-                elements: (0..rng.below(4)).map(|_| ManifestValue::Custom { value: ManifestCustomValue::Decimal(from_decimal(d)) }).collect(),
+                elements: (0..rng.below(4)).map(|_| ManifestValue::Custom { value: ManifestCustomValue::Decimal(from_decimal(&d)) }).collect(),
             }
         }
         _ => ManifestValue::Map { key_value_kind: ManifestValueKind::String, value_value_kind: ManifestValueKind::Tuple, entries: vec![] },
@@ -166,21 +166,21 @@ fn main() {
         let b = match target {
             None => b.call_function_raw(pkg, bp.clone(), name.clone(), payload.clone()),
             Some(t) => match bp.as_str() {
-                "Metadata" => b.add_raw_instruction_ignoring_all_side_effects(CallMetadataMethod {
+                "Metadata" => b.add_instruction_advanced(CallMetadataMethod {
                     address: ManifestGlobalAddress::Static(t),
                     method_name: name.clone(),
                     args: payload.clone(),
-                }),
-                "RoleAssignment" => b.add_raw_instruction_ignoring_all_side_effects(CallRoleAssignmentMethod {
+                }).0,
+                "RoleAssignment" => b.add_instruction_advanced(CallRoleAssignmentMethod {
                     address: ManifestGlobalAddress::Static(t),
                     method_name: name.clone(),
                     args: payload.clone(),
-                }),
-                "ComponentRoyalty" => b.add_raw_instruction_ignoring_all_side_effects(CallRoyaltyMethod {
+                }).0,
+                "ComponentRoyalty" => b.add_instruction_advanced(CallRoyaltyMethod {
                     address: ManifestGlobalAddress::Static(t),
                     method_name: name.clone(),
                     args: payload.clone(),
-                }),
+                }).0,
                 _ => b.call_method_raw(t, name.clone(), payload.clone()),
             },
         };
